@@ -731,6 +731,27 @@ def _float(ex, st, args, kwargs):
     if isinstance(v, SV) and v.sort in ("int", "real"):
         yield st, SV("real", lift(v, "real"))
         return
+    if isinstance(v, SV) and isinstance(v.sort, tuple) and v.sort[0] == "opt":
+        for st1, w in ex.narrow(st, v):
+            if w is None:
+                yield ex.raise_(st1, "TypeError")
+            else:
+                yield from _float(ex, st1, [w], kwargs)
+        return
+    if isinstance(v, SV) and v.sort == "str":
+        # float(text): succeeds on (whitespace-padded) plain decimals [+-]?digits[.digits]; whether any other
+        # text parses, and the binary value, are uninterpreted
+        ok = ex.uf("py_float_ok", z3.StringSort(), z3.BoolSort())
+        val = ex.uf("py_float_val", z3.StringSort(), z3.RealSort())
+        c = bm.strip_term(v.t)
+        dec = z3.Concat(z3.Option(z3.Union(z3.Re("+"), z3.Re("-"))), bm.RE_DIGITS, z3.Option(z3.Concat(z3.Re("."), z3.Star(bm.RE_DIGIT))))
+        bm.axiom(z3.Implies(z3.Or(z3.InRe(c, dec), z3.InRe(v.t, dec)), ok(v.t)))
+        for st1, good in ex.branch(st, _wrap_bool(ok(v.t))):
+            if good:
+                yield st1, SV("real", val(v.t))
+            else:
+                yield ex.raise_(st1, "ValueError")
+        return
     raise U(f"float of {v!r}")
 
 
@@ -762,6 +783,57 @@ class RegexVal:
         self.flags = flags
 
 
+class MatchVal:
+    """A successful match of a repo regex against a (symbolic) subject."""
+
+    def __init__(self, rx, subject, concrete=None):
+        self.rx = rx
+        self.subject = subject
+        self.concrete = concrete  # the real match object when the subject is a concrete string
+
+
+def _match_groups(ex, st, m, args, kwargs):
+    """m.groups(): one value per capturing group; a group that took part in the match holds a string of its own
+    sub-pattern's language (trusted fact about re), groups outside optional constructs always take part.
+    How the subject is cut into the groups is NOT modelled (the values are uninterpreted functions of the subject)."""
+    from .regex import group_patterns
+
+    if m.concrete is not None:
+        yield st, tuple(m.concrete.groups())
+        return
+    from .regex import anchored, decompose
+
+    Z = z3sort(("opt", "str"))
+    if all(anchored(m.rx.pattern)) and getattr(m, "kind", "match") in ("match", "fullmatch"):
+        try:
+            def fresh(base, bool_=False):
+                return z3.Bool(fresh_name(base)) if bool_ else z3.String(fresh_name(base))
+
+            cons, groups = decompose(m.rx.pattern, sstr(m.subject), fresh, m.rx.flags)
+            n = len(group_patterns(m.rx.pattern, m.rx.flags))
+            for c in cons:
+                st.assume(c)
+            vals = []
+            for i in range(1, n + 1):
+                cond, piece = groups[i]
+                vals.append(SV(("opt", "str"), z3.If(cond, Z.some(piece), Z.none)))
+            yield st, tuple(vals)
+            return
+        except (ValueError, KeyError):
+            pass
+    out = []
+    tag = "".join(f"{ord(c):02x}" for c in m.rx.pattern)[:40] + f"_{len(m.rx.pattern)}"
+    for i, (sub, always) in enumerate(group_patterns(m.rx.pattern, m.rx.flags), start=1):
+        f = ex.uf(f"re_group_{tag}_{i}", z3.StringSort(), z3sort(("opt", "str")))
+        g = f(sstr(m.subject))
+        Z = z3sort(("opt", "str"))
+        bm.axiom(z3.Implies(Z.is_some(g), z3.InRe(Z.val(g), sub)))
+        if always:
+            bm.axiom(Z.is_some(g))
+        out.append(SV(("opt", "str"), g))
+    yield st, tuple(out)
+
+
 def _re_compile(ex, st, args, kwargs):
     if any(is_sym(a) for a in args):
         raise U("re.compile of symbolic pattern")
@@ -781,7 +853,7 @@ def _regex_test(kind):
                 import re
 
                 m = getattr(re.compile(rx.pattern, rx.flags), kind)(w)
-                yield st1, (Opaque("Match") if m else None)
+                yield st1, (MatchVal(rx, w, m) if m else None)
                 continue
             r = to_z3(rx.pattern, rx.flags)
             a_s, a_e = anchored(rx.pattern)
@@ -800,7 +872,7 @@ def _regex_test(kind):
             if a_e and kind != "fullmatch":
                 r = z3.Union(r, z3.Concat(r, z3.Re("\n")))
             for st2, ok in ex.branch(st1, _wrap_bool(z3.InRe(w.t, r))):
-                yield st2, (Opaque("Match") if ok else None)
+                yield st2, (MatchVal(rx, w) if ok else None)
 
     return h
 
@@ -1452,7 +1524,7 @@ METHODS = {
     ("dict", "values"): _d_values, ("dict", "copy"): _d_copy, ("dict", "pop"): _d_pop,
     ("dict", "update"): _d_update, ("dict", "clear"): _d_clear, ("set", "__contains__"): _s_contains, ("set", "add"): _s_add,
     ("regex", "search"): _regex_test("search"), ("regex", "match"): _regex_test("match"),
-    ("regex", "fullmatch"): _regex_test("fullmatch"),
+    ("regex", "fullmatch"): _regex_test("fullmatch"), ("match", "groups"): _match_groups,
 }
 
 
